@@ -15,6 +15,7 @@ name-keyed re-assembly of `xform_toposort_declarations` are modelled as in the c
 
 inductive Ty where
   | bool | int
+  | str                   -- STRING / WSTRING, with or without a length (`init = some _`: has an initial value)
   | named (n : Nat)       -- a derived type or function block type name
 deriving Repr, DecidableEq
 
